@@ -4,6 +4,9 @@
 #include <yaclib/fault/detail/fiber/queue.hpp>
 #include <yaclib/fault/detail/fiber/scheduler.hpp>
 #include <yaclib/log.hpp>
+#ifdef YACLIB_VERIF
+#  include <yaclib/fault/detail/verif.hpp>
+#endif
 
 #include <functional>
 #include <thread>
@@ -20,6 +23,9 @@ class Thread {
 
   template <typename... Args>
   explicit Thread(Args&&... args) : _impl{new Fiber<Args...>(std::forward<Args>(args)...)} {
+#ifdef YACLIB_VERIF
+    verif::Event(verif::kSpawn, _impl, 0, _impl->GetId(), 0);
+#endif
     fault::Scheduler::GetScheduler()->Schedule(_impl);
   }
 
